@@ -1,0 +1,63 @@
+//go:build verif
+
+package hub
+
+import (
+	"github.com/enbility/ship-go/api"
+)
+
+// Hooks for the verification harness in /verif (build tag "verif"). Add-only: nothing
+// here is compiled into a normal build.
+
+// VerifRegisterConnection registers a (fake) connection the way ServeHTTP and
+// connectFoundService do.
+func (h *Hub) VerifRegisterConnection(c api.ShipConnectionInterface) {
+	h.registerConnection(c)
+}
+
+// VerifRegistry returns a copy of the connection registry.
+func (h *Hub) VerifRegistry() map[string]api.ShipConnectionInterface {
+	h.muxCon.Lock()
+	defer h.muxCon.Unlock()
+
+	res := make(map[string]api.ShipConnectionInterface, len(h.connections))
+	for k, v := range h.connections {
+		res[k] = v
+	}
+	return res
+}
+
+// VerifAttemptCounter returns the connection attempt counter stored under exactly this key.
+func (h *Hub) VerifAttemptCounter(ski string) (int, bool) {
+	return h.getCurrentConnectionAttemptCounter(ski)
+}
+
+// VerifSetAttemptCounter stores a connection attempt counter under exactly this key.
+func (h *Hub) VerifSetAttemptCounter(ski string, value int) {
+	h.muxConAttempt.Lock()
+	defer h.muxConAttempt.Unlock()
+
+	h.connectionAttemptCounter[ski] = value
+}
+
+// VerifAttemptRunning reports the attempt-running flag stored under exactly this key.
+func (h *Hub) VerifAttemptRunning(ski string) bool {
+	return h.isConnectionAttemptRunning(ski)
+}
+
+// VerifSetStarted sets the started flag without starting the web server or mDNS.
+func (h *Hub) VerifSetStarted(started bool) {
+	h.muxStarted.Lock()
+	defer h.muxStarted.Unlock()
+
+	h.hasStarted = started
+}
+
+// VerifSetDialDelayRanges overwrites the dial back-off table (whole seconds, max > min).
+func VerifSetDialDelayRanges(ranges [][2]int) {
+	res := make([]connectionInitiationDelayTimeRange, 0, len(ranges))
+	for _, r := range ranges {
+		res = append(res, connectionInitiationDelayTimeRange{min: r[0], max: r[1]})
+	}
+	connectionInitiationDelayTimeRanges = res
+}
